@@ -326,7 +326,11 @@ fn abstract_item(r: &Result<ProguardRecord<'_>, proguard::ParseError<'_>>) -> Va
         Ok(ProguardRecord::Class { .. }) => t("c"),
         Ok(ProguardRecord::Field { .. }) => t("f"),
         Ok(ProguardRecord::Method { line_mapping, .. }) => t(if line_mapping.is_some() { "m1" } else { "m0" }),
-        Ok(ProguardRecord::Header { key, value }) => json!({"t": "h", "key": enc::s(key), "value": enc::opt_s(*value)}),
+        // (the folds read the values of three keys only; other values, possibly megabytes long, are left out)
+        Ok(ProguardRecord::Header { key, value }) => {
+            let keep = matches!(*key, "compiler" | "compiler_version" | "min_api");
+            json!({"t": "h", "key": enc::s(key), "value": if keep { enc::opt_s(*value) } else { json!([]) }})
+        }
     }
 }
 
@@ -408,6 +412,22 @@ fn meta(sink: &mut Sink, o: &Opts) {
             src = gen::join_records(&mut rng, &src, false);
         }
         meta_event(sink, &src, None);
+    }
+    // size: the first 50 items may span megabytes (one header line of 2 MiB; forty lines of 40 KiB) before the class and
+    // its member; the answers are still the folds over the item stream (the event carries items, not bytes)
+    {
+        let mut big = b"# big: ".to_vec();
+        big.extend(std::iter::repeat(b'x').take(2 * 1024 * 1024));
+        big.extend_from_slice(b"\na.B -> a:\n    1:2:void m() -> b\n");
+        meta_event(sink, &big, None);
+        let mut many = vec![];
+        for k in 0..40 {
+            many.extend_from_slice(format!("# k{k}: ").as_bytes());
+            many.extend(std::iter::repeat(b'y').take(40 * 1024));
+            many.extend_from_slice(b"\r\n");
+        }
+        many.extend_from_slice(b"a.B -> a:\r\n    void m() -> b\r\n# min_api: 7\r\n");
+        meta_event(sink, &many, None);
     }
     // the only line-mapped method / the only class / the headers sit on the same physical line as the record
     // before them: the folds are over RECORDS, not over lines
@@ -586,6 +606,9 @@ fn retrace(sink: &mut Sink, o: &Opts) {
     }
     for (sid, src) in sessions.iter().enumerate() {
         sink.emit(json!({"t": "load", "sid": sid + 1, "src": enc::bytes(src)}));
+    }
+    if let Some(e) = opt_value(o, "--agree-at-scale") {
+        agree_at_scale(sink, e.parse().unwrap());
     }
     for (sid, src) in sessions.iter().enumerate() {
         let uni = gen::universe(src);
@@ -1178,6 +1201,16 @@ fn sinks(sink: &mut Sink, o: &Opts) {
             let out = crate::sink::run(&src, script, rest);
             sink.emit(crate::sink::event(&out));
         }
+        // long runs of Interrupted (the one retryable kind: however long the run, the writer keeps retrying and the
+        // file comes out whole), before the first byte and in the middle of a section
+        if !big && k % 6 == 2 {
+            for run_len in [17usize, 1023, 1024, 1025, 5000] {
+                for at in [0usize, 2] {
+                    let out = crate::sink::run(&src, [vec![1 << 30; at], vec![7], vec![-1; run_len]].concat(), 1 << 30);
+                    sink.emit(crate::sink::event(&out));
+                }
+            }
+        }
         // sinks that implement write_vectored and take a limited number of bytes per call ACROSS the offered buffers
         if !big && k % 4 == 1 {
             for cap in [1i64, 2, 3, 5, 7, 8, 9, 13, 23, 25, 26, 27, 29, 30, 31, 33, 37, 38, 39, 41, 47, 64] {
@@ -1538,7 +1571,7 @@ fn uuids(sink: &mut Sink, o: &Opts) {
     let mut inputs: Vec<Vec<u8>> = vec![vec![], b"a".to_vec(), b"a -> b:\n".to_vec(), b"a -> b:\r\n".to_vec(), vec![0u8; 55], vec![0xffu8; 56], vec![7u8; 64], vec![9u8; 119], vec![1u8; 120]];
     // the identifier depends on nothing but the bytes: probes for every normalisation a parser might
     // be tempted to apply (BOM, leading / trailing white space and terminators, NUL, case, invalid UTF-8)
-    for base in [&b"a -> b:\n    void m() -> n\n"[..], b"x", b""] {
+    for base in [&b"a -> b:\n    void m() -> n\n"[..], b"x", b"", b"a -> b:\r\n    void m() -> n\r\n", b"a -> b:\r", b"\r\n"] {
         for pre in [&b"\xef\xbb\xbf"[..], b"\n", b"\r\n", b" ", b"\t", b"\0", b"#", b"\xff\xfe", b"\xfe\xff"] {
             inputs.push([pre, base].concat());
         }
@@ -1723,6 +1756,88 @@ fn threads(sink: &mut Sink, o: &Opts) {
         for ev in results.into_inner().unwrap() {
             sink.emit(ev);
         }
+    }
+    if let Some(e) = opt_value(o, "--first-use") {
+        threads_first_use(sink, 6, e.parse().unwrap());
+    }
+}
+
+/// C20 at scale: one obfuscated method with hundreds of thousands of line ranges; many threads ask a FRESH shared
+/// mapper / cache their first question at the same instant (whatever a handle computes lazily on first use is computed
+/// while others are asking); every answer must be the one the query gets alone
+fn threads_first_use(sink: &mut Sink, rounds: usize, entries: usize) {
+    use std::sync::{Arc, Barrier};
+    let mut src = String::from("com.example.Big -> a:\n");
+    for k in 0..entries {
+        src.push_str(&format!("    {}:{}:void run():{}:{} -> m\n", 3 * k + 1, 3 * k + 2, 10 + k, 11 + k));
+    }
+    src.push_str("    void other() -> n\n    int other2() -> n\ncom.example.Small -> b:\n    void x() -> y\n");
+    let src: &'static [u8] = Box::leak(src.into_bytes().into_boxed_slice());
+    let queries: Vec<(&str, &str)> = vec![("a", "m"), ("a", "n"), ("b", "y")];
+    let alone_handle = proguard::ProguardMapper::new(proguard::ProguardMapping::new(src));
+    let enc_m = |r: Option<(&str, &str)>| match r { None => json!([]), Some((c, m)) => json!([[enc::s(c), enc::s(m)]]) };
+    let alone: Vec<Value> = queries.iter().map(|(c, m)| enc_m(alone_handle.remap_method(c, m))).collect();
+    let Ok(bytes) = crate::handles::write_cache(src) else { return };
+    let buf: &'static crate::handles::Aligned = Box::leak(Box::new(crate::handles::Aligned::new(&bytes)));
+    for round in 0..rounds {
+        let nthreads = 12;
+        for kind in ["mapper", "cache"] {
+            let mapper = if kind == "mapper" { Some(proguard::ProguardMapper::new(proguard::ProguardMapping::new(src))) } else { None };
+            let cache = if kind == "cache" { proguard::ProguardCache::parse(buf.bytes()).ok() } else { None };
+            let barrier = Arc::new(Barrier::new(nthreads));
+            let q = queries[round % queries.len()];
+            let answers: Vec<Value> = std::thread::scope(|scope| {
+                let hs: Vec<_> = (0..nthreads)
+                    .map(|_| {
+                        let barrier = barrier.clone();
+                        let (mapper, cache) = (&mapper, &cache);
+                        scope.spawn(move || {
+                            barrier.wait();
+                            guarded(std::panic::AssertUnwindSafe(|| match (mapper, cache) {
+                                (Some(m), _) => enc_m(m.remap_method(q.0, q.1)),
+                                (_, Some(c)) => enc_m(c.remap_method(q.0, q.1)),
+                                _ => json!({"error": "no handle"}),
+                            }))
+                            .unwrap_or_else(|p| json!({"panic": p}))
+                        })
+                    })
+                    .collect();
+                hs.into_iter().map(|h| h.join().unwrap_or_else(|_| json!({"panic": "thread"}))).collect()
+            });
+            sink.emit(json!({"t": "alone", "handle": kind, "api": "remap_method", "entries": entries, "class": enc::s(q.0), "method": enc::s(q.1),
+                             "alone": alone[round % queries.len()], "shared": answers}));
+        }
+    }
+}
+
+/// C02 at scale: one class with more than 65536 entries under one obfuscated name and many parameter strings;
+/// the mapper with parameter index and the cache must answer sampled parameter (and line) queries identically
+fn agree_at_scale(sink: &mut Sink, entries: usize) {
+    use crate::handles::{parse_query, Handle};
+    let mut src = String::from("com.example.Wide -> w:\n");
+    for k in 0..entries {
+        // a new (name, params, original) triple every 7th entry, otherwise further ranges of earlier ones
+        let p = (k / 7) % 1500;
+        src.push_str(&format!("    {}:{}:void f{}(p{}):{}:{} -> a\n", 2 * k + 1, 2 * k + 2, p % 50, p, 5 + k % 100, 6 + k % 100));
+    }
+    src.push_str("    void late(p9999) -> a\n    void late2(p0) -> a\n");
+    let src = src.into_bytes();
+    let Ok(bytes) = crate::handles::write_cache(&src) else { return };
+    let buf = crate::handles::Aligned::new(&bytes);
+    let Ok(cache) = proguard::ProguardCache::parse(buf.bytes()) else { return };
+    let handles = [Handle::Mapper(proguard::ProguardMapper::new_with_param_mapping(proguard::ProguardMapping::new(&src), true)), Handle::Cache(cache)];
+    let mut qs: Vec<Value> = vec![];
+    for p in [0usize, 1, 2, 49, 50, 51, 700, 1499, 9999, 12345] {
+        qs.push(json!({"t": "frame", "frame": {"class": enc::s("w"), "method": enc::s("a"), "line": [0], "file": [], "params": [enc::s(&format!("p{p}"))]}}));
+    }
+    for l in [1u128, 2, 3, 131071, 131072, 131073, 2 * entries as u128, 2 * entries as u128 + 5] {
+        qs.push(json!({"t": "frame", "frame": {"class": enc::s("w"), "method": enc::s("a"), "line": enc::dec(l), "file": [], "params": []}}));
+    }
+    qs.push(json!({"t": "method", "class": enc::s("w"), "method": enc::s("a")}));
+    for q in qs {
+        let pq = parse_query(&q);
+        let got: Vec<Value> = handles.iter().map(|h| { let hr = std::panic::AssertUnwindSafe(h); let pq = &pq; guarded(move || hr.answer(pq)).unwrap_or_else(|p| json!({"panic": p})) }).collect();
+        sink.emit(json!({"t": "agree", "entries": entries, "q": q, "got": {"mapperp": got[0], "cache": got[1]}}));
     }
 }
 
